@@ -309,7 +309,20 @@ func (client *client) writeLoop() {
 	for {
 		select {
 		case <-client.close:
-			return
+			// setError queues the DISCONNECT and closes client.close right after it: both cases of this
+			// select are then ready and one is picked at random. Flush the queue so the DISCONNECT is sent.
+			for {
+				select {
+				case packet := <-client.out:
+					if _, ok := packet.(*packets.Disconnect); ok {
+						_ = client.writePacket(packet)
+						_ = client.rwc.Close()
+						return
+					}
+				default:
+					return
+				}
+			}
 		case packet := <-client.out:
 			switch p := packet.(type) {
 			case *packets.Publish:
